@@ -319,6 +319,25 @@ def main():
                     except Exception:
                         pass
         rec['fields_after'] = [n.field for n in student.linear_tree]
+        # searches in explicitly given programs (find_matches(pattern, student_code=...)) on the SAME report, after
+        # the submission was verified; each compared with the same search on a fresh report
+        rec['explicit'] = []
+        if case.get('explicit'):
+            from pedal.core.report import Report
+            from pedal.source import verify
+            try:
+                verify()
+            except Exception:
+                pass
+            for code, pattern in case['explicit']:
+                one = {}
+                for name, kwargs in (('history', {}), ('fresh', {'report': Report()})):
+                    try:
+                        ms = find_matches(pattern, student_code=code, **kwargs)
+                        one[name] = {'n': len(ms), 'bindings': [bindings(m) for m in ms]}
+                    except Exception as e:
+                        one[name] = {'crash': type(e).__name__ + ': ' + str(e)[:120]}
+                rec['explicit'].append(one)
         out.append(rec)
     json.dump(out, open(sys.argv[1], 'w'))
 
